@@ -1,6 +1,86 @@
-(* C01 — temporary while phase-2 proofs are rewritten *)
+(* C01 — Compiled programs behave like the reference Go toolchain.
+   This file holds ONLY the property statements, theorems closed by [exact lemma], their
+   Print Assumptions and non-vacuity examples.
+   Models: Model/C01_GoSem.v (MiniGo interpreter), Model/C01_JsSem.v (MiniJS interpreter),
+   Model/C01_Compile.v (Gallina mirror of compiler/expressions.go + statements.go +
+   filter/{assign,incdecstmt}.go + utils.go:newVariable for the fragment), Model/C01_Wf.v.
+   Tie: harness/py/props/c01.py — on every generated program the body of the function in the REAL
+   out.js is parsed and must be EQUAL to [compile p] (Corr/C01_Eval: temp names and the var list
+   included), [run_js parsed] must equal [run_go p] (evaluated in Coq), and node / native Go must
+   agree with [run_go p]. *)
 From Coq Require Import ZArith List String Bool.
-From Verif Require Import Model.C01_GoSem Model.C01_JsSem Model.C01_Compile Model.C01_Wf.
+From Verif Require Import Model.C01_GoSem Model.C01_JsSem Model.C01_Compile Model.C01_Wf
+  Proofs.C01_Arith Proofs.C01_SimBase Proofs.C01_SimExpr Proofs.C01_SimBin Proofs.C01_SimStmt4 Proofs.C01_Examples.
 Import ListNotations.
-Example C01_placeholder : wf_prog SSkip = true.
-Proof. reflexivity. Qed.
+Local Open Scope Z_scope.
+
+(* ------------------------------------------------------------------------------------------
+   The FULL property (all valid Go programs).  Unproved by design, never asserted: Go, its type
+   checker, the real translator and node are not objects of this development, so they are
+   parameters of the definition. *)
+Definition C01_full_statement
+  (GoProgram JsFile : Type) (valid_terminating_schedule_independent : GoProgram -> Prop)
+  (reference_behaviour : GoProgram -> outcome -> Prop)        (* natively built program, int = 32 bit *)
+  (gopherjs_build : GoProgram -> option JsFile)               (* None = rejected / internal error *)
+  (syntactically_valid : JsFile -> Prop) (node_behaviour : JsFile -> outcome -> Prop) : Prop :=
+  forall p, valid_terminating_schedule_independent p ->
+    exists js, gopherjs_build p = Some js /\ syntactically_valid js /\
+               forall o, reference_behaviour p o -> node_behaviour js o.
+
+(* ------------------------------------------------------------------------------------------
+   PROVED, for the stage-1 fragment (hence _partial w.r.t. the full property; nothing is excluded
+   inside the fragment): every well-formed MiniGo program — one function; local variables of the
+   kinds int8 int16 int32 int uint8 uint16 uint32 uint and bool; all integer operators
+   + - * / % & | ^ &^ << >>, unary - ^ !, comparisons, && ||, conversions; define / assign /
+   op-assign / ++ --; if / else-if / else; for with init, condition, post; labelled and unlabelled
+   break / continue; println — whose Go run ends (normally or by the division panic) within the
+   fuel is simulated by the translation produced by the model of the translator: same printed
+   lines, same ending, and with the SAME fuel (one unit per loop iteration on both sides).
+   Covers the temporaries _q _r x y and their numbering against user variables, the conditions of
+   an else-if chain being translated before the bodies, the post statement duplicated at every
+   continue, and wrap-around of every operator at every width. *)
+Theorem compile_correct_partial : forall p, wf_prog p = true ->
+  forall fuel out e, run_go fuel p = Done out e -> run_js fuel (compile p) = Done out e.
+Proof. exact compile_correct_all. Qed.
+Print Assumptions compile_correct_partial.
+
+(* the form stated in the design: whenever the Go run does not run out of fuel (it is never stuck
+   on a well-formed program, by the same simulation) some fuel makes the JavaScript run agree *)
+Theorem compile_correct_partial_exists : forall p, wf_prog p = true ->
+  forall fuel out e, run_go fuel p = Done out e -> exists fuel', run_js fuel' (compile p) = Done out e.
+Proof. intros p H fuel out e G. exists fuel. exact (compile_correct_all p H fuel out e G). Qed.
+
+(* expressions: the translation of every well-typed expression, at ANY state of the name
+   allocator, evaluates to Go's value (and stays in range), throws exactly when Go panics, and
+   leaves every previously allocated JavaScript variable unchanged *)
+Theorem compile_expr_correct : forall g sg e t st je st' sj,
+  wf_expr g e = Some t -> cexpr st e = (je, st') -> rho_ok st -> Inv g (rho st) sg sj ->
+  ESim st t sg sj e je.
+Proof. intros g sg e. exact (cexpr_sim g sg e). Qed.
+Print Assumptions compile_expr_correct.
+
+(* fixNumber is Go's wrap-around for every integer (not only in-range ones) and every kind *)
+Theorem fixnumber_is_wraparound : forall k e s x s',
+  jeval s e = JOk (JI x) s' -> jeval s (fix_number k e) = JOk (JI (norm k x)) s'.
+Proof. exact fix_number_eval. Qed.
+Print Assumptions fixnumber_is_wraparound.
+
+(* ------------------------------------------------------------------------------------------
+   Non-vacuity: a well-formed program with nested labelled loops, `continue` through two loops
+   with a post statement that needs a temporary, shadowing, an else-if chain with divisions in the
+   conditions, int8 overflow and a final division by zero; its run ends in a panic after six lines *)
+Example C01_nonvacuous :
+  wf_prog ex_prog = true /\
+  exists out, run_go 50 ex_prog = Done out PanicExit /\ List.length out = 6%nat /\
+              run_js 50 (compile ex_prog) = Done out PanicExit.
+Proof. exact ex_prog_simulated. Qed.
+
+(* the inputs on which /repo used to deviate (int8 MinInt / -1, -MinInt, negative >> 32, a
+   panicking operand of a shift by >= 32) are inside the theorem now: both sides computed *)
+Example C01_formerly_deviating :
+  run_js 5 (compile p_quo_minint) = Done [[VI (-128)]] Exit /\ run_go 5 p_quo_minint = Done [[VI (-128)]] Exit /\
+  run_js 5 (compile p_neg_minint) = Done [[VI (-2147483648)]] Exit /\ run_go 5 p_neg_minint = Done [[VI (-2147483648)]] Exit /\
+  run_js 5 (compile p_shr_const) = Done [[VI (-1)]] Exit /\ run_go 5 p_shr_const = Done [[VI (-1)]] Exit /\
+  run_js 5 (compile p_shift_skip) = Done [] PanicExit /\ run_go 5 p_shift_skip = Done [] PanicExit /\
+  wf_prog p_quo_minint = true /\ wf_prog p_neg_minint = true /\ wf_prog p_shr_const = true /\ wf_prog p_shift_skip = true.
+Proof. exact formerly_deviating. Qed.
